@@ -24,6 +24,14 @@ func (x *c20SX) rangeStmt(s *ast.RangeStmt, st *c20St) []*c20St {
 			out = append(out, r.st)
 			continue
 		}
+		if r.v.k == c20kList && !r.v.in && r.v.star == nil && r.v.tag != "presized" && r.v.name != "nums" {
+			// a list with known elements: a table of strings
+			a := c20V{k: c20kAgg, typ: r.v.typ}
+			for _, e := range r.v.elems {
+				a.vs = append(a.vs, c20StrV(e))
+			}
+			r.v = a
+		}
 		if r.v.k == c20kAgg {
 			a := r.v
 			out = append(out, x.unroll(s, s.Body, a, r.st, func(i int, c *c20St) {
@@ -155,8 +163,12 @@ func (x *c20SX) loopOver(s ast.Node, body *ast.BlockStmt, key, value ast.Expr, i
 		return []*c20St{st}
 	}
 	if isID {
+		written := c20AssignedIn(x.info, body)
 		for o, val := range st.env {
-			if val.k == c20kBytes && len(val.sym) == 0 {
+			// buffers that are empty before the loop are "carried": inside the body `len(buf) > 0` / `s != ""` means
+			// "not the first iteration" until something is written in this iteration
+			if (val.k == c20kBytes || val.k == c20kStr && written[o]) && len(c20MergeLits(val.sym)) == 0 {
+				val.sym = nil
 				val.id = id
 				st.env[o] = val
 			}
@@ -196,9 +208,9 @@ func (x *c20SX) loopOver(s ast.Node, body *ast.BlockStmt, key, value ast.Expr, i
 	return append(out, post)
 }
 
-// changed lists the variables of pre whose value differs in end.
-func (x *c20SX) changed(pre, end *c20St, since int) []types.Object {
-	var out []types.Object
+// changed lists the places (variables, fields of struct objects of the package) of pre whose value differs in end.
+func (x *c20SX) changed(pre, end *c20St, since, loopID int) []c20Place {
+	var out []c20Place
 	for o, old := range pre.env {
 		// a variable declared, or bound as a parameter, during the iteration (locals and parameters of helpers and
 		// closures called in the body) starts a new lifetime there: it cannot carry state to the next iteration
@@ -206,44 +218,57 @@ func (x *c20SX) changed(pre, end *c20St, since int) []types.Object {
 			continue
 		}
 		if nv, ok := end.env[o]; ok && !c20Same(old, nv) {
-			out = append(out, o)
+			out = append(out, c20Place{obj: o})
+		}
+	}
+	for id, fields := range end.heap {
+		for name, nv := range fields {
+			p := c20Place{id: id, field: name}
+			old, known := pre.at(p)
+			if !known && id > loopID {
+				continue // a struct built during the iteration
+			}
+			if !known || !c20Same(old, nv) {
+				out = append(out, p)
+			}
 		}
 	}
 	return out
 }
 
 func (x *c20SX) sumOptLoop(s ast.Node, since, id int, kind string, v c20V, pre *c20St, ends []*c20St) *c20St {
-	var list types.Object
+	var list c20Place
 	for _, e := range ends {
-		for _, o := range x.changed(pre, e, since) {
-			old, nv := pre.env[o], e.env[o]
+		for _, o := range x.changed(pre, e, since, id) {
+			old, _ := pre.at(o)
+			nv, _ := e.at(o)
 			switch {
 			case nv.k == c20kList && old.k == c20kList && old.star == nil && len(nv.elems) == len(old.elems)+1 && nv.in == old.in &&
 				len(nv.elems[len(old.elems)]) == 1 && nv.elems[len(old.elems)][0].hole != nil && nv.elems[len(old.elems)][0].hole.fn == kind+"#1":
-				if list != nil && list != o {
+				if !list.none() && list != o {
 					return pre.abort(s, "the option loop extends two lists")
 				}
 				list = o
 			case (old.k == c20kNil || old.k == c20kObj && old.tag == "err") && e.resolve(nv).k == c20kNil:
 				// the error variable holds the nil error of the apply call
 			default:
-				return pre.abort(s, "the option loop changes %s from %s to %s (only extending one list with the option's string is understood)", o.Name(), old.String(), nv.String())
+				return pre.abort(s, "the option loop changes %s from %s to %s (only extending one list with the option's string is understood)", o.text(), old.String(), nv.String())
 			}
 		}
 	}
-	if list == nil {
+	if list.none() {
 		return pre.abort(s, "the option loop does not apply the options to a list")
 	}
-	l := pre.env[list]
+	l, _ := pre.at(list)
 	l.elems = append([]c20Sym(nil), l.elems...)
 	l.star = &c20Hole{fn: kind, param: v.h.param, pname: v.h.pname}
-	pre.env[list] = l
+	pre.put(list, l)
 	return pre
 }
 
 func (x *c20SX) sumIDLoop(s ast.Node, since, id int, v c20V, pre *c20St, ends []*c20St) *c20St {
 	atom := fmt.Sprintf("notfirst:#%d", id)
-	var buf types.Object
+	var buf c20Place
 	var first, later *c20Sym
 	set := func(dst **c20Sym, app c20Sym) bool {
 		app = c20MergeLits(app)
@@ -254,18 +279,21 @@ func (x *c20SX) sumIDLoop(s ast.Node, since, id int, v c20V, pre *c20St, ends []
 		return (*dst).render(nil) == app.render(nil)
 	}
 	for _, e := range ends {
-		for _, o := range x.changed(pre, e, since) {
-			old, nv := pre.env[o], e.env[o]
+		for _, o := range x.changed(pre, e, since, id) {
+			old, _ := pre.at(o)
+			nv, _ := e.at(o)
 			var app c20Sym
 			switch {
 			case old.k == c20kBytes && nv.k == c20kBytes && len(old.sym) == 0:
 				app = nv.sym
+			case old.k == c20kStr && nv.k == c20kStr && len(c20MergeLits(old.sym)) == 0:
+				app = nv.sym
 			case old.k == c20kList && nv.k == c20kList && old.star == nil && !old.in && len(old.elems) == 0 && len(nv.elems) == 1:
 				app = nv.elems[0]
 			default:
-				return pre.abort(s, "the id loop changes %s from %s to %s (only appending the ids to one buffer that is empty before the loop is understood)", o.Name(), old.String(), nv.String())
+				return pre.abort(s, "the id loop changes %s from %s to %s (only appending the ids to one buffer that is empty before the loop is understood)", o.text(), old.String(), nv.String())
 			}
-			if buf != nil && buf != o {
+			if !buf.none() && buf != o {
 				return pre.abort(s, "the id loop fills two buffers")
 			}
 			buf = o
@@ -282,15 +310,21 @@ func (x *c20SX) sumIDLoop(s ast.Node, since, id int, v c20V, pre *c20St, ends []
 			}
 		}
 	}
-	if buf == nil || first == nil || later == nil {
+	if buf.none() || first == nil || later == nil {
 		return pre.abort(s, "the id loop does not append to a buffer on every iteration")
 	}
 	isElem := func(t c20Tok) bool { return t.hole != nil && t.hole.fn == "elem" && t.hole.param == v.h.param }
 	f, l := *first, *later
 	h := &c20Hole{param: v.h.param, pname: v.h.pname}
-	old := pre.env[buf]
+	old, _ := pre.at(buf)
 	switch {
-	case len(f) == 1 && isElem(f[0]) && len(l) == 2 && l[0].hole == nil && l[0].opt == nil && isElem(l[1]) && old.k == c20kBytes:
+	case len(f) == 1 && isElem(f[0]) && len(l) == 1 && isElem(l[0]) && old.k == c20kList && old.name == "nums":
+		// the ids copied (converted) one by one into a number list: that list is the id list under another type
+		if f[0].hole.verb != "" || l[0].hole.verb != "" {
+			return pre.abort(s, "the id loop stores formatted ids into a number list")
+		}
+		pre.put(buf, c20V{k: c20kIn, h: h, typ: old.typ})
+	case len(f) == 1 && isElem(f[0]) && len(l) == 2 && l[0].hole == nil && l[0].opt == nil && isElem(l[1]) && (old.k == c20kBytes || old.k == c20kStr):
 		h.fn, h.verb = "csv", f[0].hole.verb
 		if l[0].lit != "," {
 			h.fn = "csv<" + l[0].lit + ">"
@@ -298,11 +332,11 @@ func (x *c20SX) sumIDLoop(s ast.Node, since, id int, v c20V, pre *c20St, ends []
 		if l[1].hole.verb != f[0].hole.verb {
 			h.verb = "mixed"
 		}
-		pre.env[buf] = c20V{k: c20kBytes, sym: c20Sym{{hole: h}}, typ: old.typ, tag: old.tag}
+		pre.put(buf, c20V{k: old.k, sym: c20Sym{{hole: h}}, typ: old.typ, tag: old.tag})
 	case len(f) == 1 && isElem(f[0]) && len(l) == 1 && isElem(l[0]) && old.k == c20kList:
 		h.fn, h.verb = "ids", f[0].hole.verb
 		old.star = h
-		pre.env[buf] = old
+		pre.put(buf, old)
 	default:
 		return pre.abort(s, "the id loop appends `%s` on the first and `%s` on later iterations; understood: the decimal id, preceded by a constant separator exactly when not first", f.render(nil), l.render(nil))
 	}
@@ -324,5 +358,21 @@ func c20MergeLits(s c20Sym) c20Sym {
 		}
 		out = append(out, t)
 	}
+	return out
+}
+
+// c20AssignedIn lists the variables assigned (=, +=, ...) by identifier inside n.
+func c20AssignedIn(info *types.Info, n ast.Node) map[types.Object]bool {
+	out := map[types.Object]bool{}
+	ast.Inspect(n, func(m ast.Node) bool {
+		if as, ok := m.(*ast.AssignStmt); ok {
+			for _, l := range as.Lhs {
+				if o := objOf(info, l); o != nil {
+					out[o] = true
+				}
+			}
+		}
+		return true
+	})
 	return out
 }
